@@ -43,6 +43,7 @@ QUICK = [
     _k('structured', mode='struct', T=2),
     _k('structured_windows', mode='struct', T=3, inner_win=(0, 2), outer_win=(1, 3)),
     _k('structured_two_external_nodes', mode='struct', T=2, two_external=True),
+    _k('structured_with_order_book_inside', mode='struct', T=3, inner_orderbook=True),
     _k('structured_end_only_windows', mode='struct', T=4, inner_win=(None, 3), outer_win=(None, 2)),
     _k('structured_start_only_windows', mode='struct', T=4, inner_win=(1, None), outer_win=(2, None)),
 ]
@@ -266,10 +267,10 @@ def clip(w_in, w_out):
     return (lo, hi)
 
 
-def build_struct(D, T, inner_win=None, outer_win=None, two_internal=False, two_external=False):
+def build_struct(D, T, inner_win=None, outer_win=None, two_internal=False, two_external=False, inner_orderbook=False):
     eao = lift.import_eao()
     # every inner asset carries a window when the wrapper has one (a wrapper window over window-less inner assets: KF-C08-structwin)
-    sh = shapes.pf_structured(D, T=T, inner_win=inner_win, outer_win=outer_win, two_internal=two_internal, inner_win_all=True, two_external=two_external)
+    sh = shapes.pf_structured(D, T=T, inner_win=inner_win, outer_win=outer_win, two_internal=two_internal, inner_win_all=True, two_external=two_external, inner_orderbook=inner_orderbook)
     tg = sh.tg
     nI, nE, nJ = shapes.nodes('I', 'E', 'J')
     # flat twin: same assets, inner windows clipped to the wrapper's window
@@ -280,6 +281,8 @@ def build_struct(D, T, inner_win=None, outer_win=None, two_internal=False, two_e
     if two_internal:
         flat.append(shapes.mk_transport(D, 'itr2', nJ, nI, eff=None, costs=False, win=cw, tg=tg))
         flat.append(shapes.mk_market(D, 'imk', nJ, T, 'q', win=cw, tg=tg))
+    if inner_orderbook:
+        flat.append(shapes.mk_orderbook(D, 'iob', nI, tg, ((0, 2, 2.0), (1, T, -1.5))))
     if two_external:
         (nF,) = shapes.nodes('F')
         flat.append(shapes.mk_transport(D, 'itrF', nI, nF, eff=None, win=cw, tg=tg))
@@ -298,11 +301,11 @@ def struct_rename(k):
     return (asset, vn, t)
 
 
-def run_struct(rec, seed, T, inner_win=None, outer_win=None, two_internal=False, two_external=False):
+def run_struct(rec, seed, T, inner_win=None, outer_win=None, two_internal=False, two_external=False, inner_orderbook=False):
     eao = lift.import_eao()
 
     def build(D):
-        sh, flat = build_struct(D, T, inner_win, outer_win, two_internal, two_external)
+        sh, flat = build_struct(D, T, inner_win, outer_win, two_internal, two_external, inner_orderbook)
         ops = sh.portf.setup_optim_problem(sh.prices, sh.tg)
         xs = common.sym_x(len(ops.c), 'x')
         outs = eao.io.extract_output(sh.portf, ops, eao.optimization.Results(value=Sym.var('value'), x=xs, duals=None))
